@@ -105,6 +105,8 @@ def check_tag_record(p, name, t, rec, fw, discs, seen):
         want["external_access"] = EXTERNAL_ACCESS_TEXT[t.get("access", 0)]
     if struct:
         want["template_instance_id"] = p.udts[t["type"]]["tid"]
+    if t["type"] == "BOOL" and not t["dims"]:
+        want["bit_position"] = t.get("bitpos", 0)
     for k, v in want.items():
         if rec.get(k) != v:
             discs.append(Disc(f"tag.{k}", f"{name}: {k} = {rec.get(k)!r}, controller has {v!r}"))
